@@ -149,10 +149,11 @@ class C03(F.Check):
     title = 'Every frame the client writes is a valid client frame that round-trips'
     technique = ('bounded-exhaustive enumeration of API calls (boundary lengths x content patterns x masking keys incl. the complete '
                  '4x256x256 XOR lane table x argument types x close codes/reasons x compression on/off) on the real session; each wire '
-                 'delta decoded by an independent strict RFC 6455 server-side decoder and a strict RFC 1951 inflater')
+                 'delta decoded by an independent strict RFC 6455 server-side decoder and a strict RFC 1951 inflater; partial writes interrupted at every offset; '
+                 'all chains of 2-3 connections on one object over {deflate accepted, declined}')
     assumptions = [
         'masking keys come from the deterministic source installed by lv.world (lomond.frame.make_masking_key / os.urandom seams)',
-        'compression configuration here is the default negotiated one; all 256 configurations are C06',
+        'compression configurations here: the default negotiated one and a 512-byte client window; all 256 configurations are C06',
         'close(code=None) (empty Close payload) and a bytearray close reason are executed but not judged beyond frame validity',
     ]
     expect_sites = ('frame', 'reject', 'rsv1', 'close', 'lane-table', 'len16', 'len64', 'debug-logging', 'partial-write', 'reconnect')
